@@ -248,7 +248,8 @@ static void dd_run(const dd_sched *sc, const uint8_t *stream, size_t n, vf_rng *
 			if (claim) {
 				/* every complete chunk must have produced an outcome */
 				const uint8_t *z = (chunk < n) ? memchr(stream + chunk, 0, n - chunk) : 0;
-				if (z) {
+				size_t el2 = 0;
+				if (z && rc_decode(fmt, stream + chunk, (size_t) (z - (stream + chunk)), exp, &el2) != RC_UNCLAIMED) {
 					vf_fail(dd_key(c, "complete-frame-not-delivered"),
 					        "all %zu stream bytes supplied, chunk at stream offset %zu is terminated at %zu but the decoder asks for more data; stream=%s state %s",
 					        n, chunk, (size_t) (z - stream), vf_hex(c->hx1, sizeof(c->hx1), stream, n), dd_state(&c->st, c->hx2, sizeof(c->hx2)));
